@@ -11,7 +11,7 @@ def run(rep, tier):
         events, bad = halpipe.run_corpus(rep, wd, name, tier)
         nb = halpipe.report(rep, events, bad, {"fill"}, name)
         log("[C11] corpus %s: %d events, %d fill-dependent or frame-violating" % (name, len(events), nb))
-        for e in events[:1]:
+        for e in [events[0]]:
             rep.sample({k: e[k] for k in ("op", "n", "rs", "p", "shape")})
     rep.rule = ("every HAL descriptor executed twice per back-end from two independent garbage fills of every writable byte (result buffer incl. other columns, slack limbs, "
                 "scratch) inside canary-guarded exact-size windows; HalTrace.FillOK requires identical outcomes and every byte outside the selected result column unchanged; "
